@@ -320,7 +320,8 @@ def mk(nbits):
             # --- a short-lived earlier thread creates deduplicated tasks and abandons them (never run)
             def z_main():
                 box["z"] = [shared_dd2.asynq(k, "Z") for k in (0, 1)] + [shared_dd.asynq(k) for k in (0, 1)]
-            _tl_z = threading.Thread(target=z_main)
+            # (it carries the same thread name as thread B will: names are labels, not identities)
+            _tl_z = threading.Thread(target=z_main, name=threading.current_thread().name)
             _tl_z.start()
             _tl_z.join(60)
             # --- both, interleaved at the hand-over points chosen by the schedule bits
